@@ -20,7 +20,8 @@ BITS = {0: "correspondence: model output differs from implementation output",
            "token, or an exception on an input with a non-break character",
         2: "tokens2class: not one class per token, a class outside the model's alphabet / '0', a gap class, "
            "or an exception other than the all-unknown ValueError",
-        3: "prosodic_string / sonority / prosodic_weights: not one element per token, or an exception",
+        3: "prosodic_string / sonority / prosodic_weights: not one element per token (also within a history of calls "
+           "in one process on different segmentations of the same characters), or an exception",
         4: "class2tokens: removing the gaps does not give back the tokens, or the gap pattern differs from "
            "the class string",
         5: "an argument list was modified by the call (the caller's list differs from the copy taken before), or a "
@@ -205,6 +206,32 @@ def run_impl(case):
         finally:
             rcParams["art"] = saved
         return {"cls": cls, "son": son, "out": out, "after": [str(t) for t in arg]}
+    if kind == "prosseq":
+        # a HISTORY of calls in this one process: different segmentations of the same characters,
+        # the same tokens with different cldf settings, in the order the case gives
+        # the module is re-executed first, so that module-level state left by EARLIER cases cannot leak in:
+        # the case is a self-contained history, its replay reproduces in a fresh process and the shrinker
+        # (which re-runs sub-histories in this process) stays honest
+        import importlib
+        importlib.reload(sc)
+        art = _state["models"][case["art"]]
+        saved = rcParams["art"]
+        rcParams["art"] = art
+        steps = []
+        try:
+            for cldf, tk in case["steps"]:
+                arg = list(tk)
+                cls = guarded(lambda: [str(c) for c in sc.tokens2class(arg, art, cldf=cldf)])
+                son = guarded(lambda: [int(t) for t in sc.tokens2class(arg, rcParams["art"], cldf=cldf)])
+                out = guarded(lambda: str(sc.prosodic_string(arg, cldf=cldf)))
+                weights = None
+                if out[0] == "ok":
+                    weights = guarded(lambda: [_frac(x) for x in sc.prosodic_weights(out[1])])
+                steps.append({"cls": cls, "son": son, "out": out, "weights": weights,
+                              "after": [str(t) for t in arg]})
+        finally:
+            rcParams["art"] = saved
+        return {"steps": steps}
     if kind == "c2t":
         cl = case["classes"]
         # the SAME token / class-string objects go into every call (a history of two global and two
@@ -247,6 +274,12 @@ def render(case, r):
         return "(CProsTok sc_%s rc_stress rc_diacs %s %s %s %s %s)" % (
             case["art"], toks(case["toks"]), res(r["cls"], toks), res(r["son"], zs), res(r["out"], cps),
             toks(r["after"]))
+    if kind == "prosseq":
+        steps = ["(mk_pstep %s %s %s %s %s %s %s)" % (
+            b(cldf), toks(tk), res(q["cls"], toks), res(q["son"], zs), res(q["out"], cps),
+            "KeyErr" if q["weights"] is None else res(q["weights"], qs), toks(q["after"]))
+            for (cldf, tk), q in zip(case["steps"], r["steps"])]
+        return "(CProsSeq sc_%s rc_stress rc_diacs [%s])" % (case["art"], "; ".join(steps))
     if kind == "c2t":
         return "(CC2T %s %s %s %s %s %s %s %s %s %s %s)" % (
             cps(case["gap"]), toks(case["tokens"]), toks(case["classes"]), toks(r["out"]),
@@ -378,6 +411,87 @@ def prostok_random(rng, n, maxlen):
 REDUCED = (0, 1, 2, 3, 7, 8, 9)     # unknown, three consonant levels, vowel, tone, word break
 
 
+def segmentations(s):
+    """all ways to cut the string s into consecutive non-empty tokens"""
+    n = len(s)
+    for mask in range(1 << max(0, n - 1)):
+        out, cur = [], s[:1]
+        for i in range(1, n):
+            if mask >> (i - 1) & 1:
+                out.append(cur)
+                cur = s[i]
+            else:
+                cur += s[i]
+        out.append(cur)
+        yield out if n else []
+
+
+def merge_runs(s, pred):
+    """one token per character, but adjacent characters x, y with pred(x, y) share a token
+    (what merge_vowels / merge_geminates do to a word)"""
+    out = []
+    for ch in s:
+        if out and pred(out[-1][-1], ch):
+            out[-1] += ch
+        else:
+            out.append(ch)
+    return out
+
+
+def prosseq_exhaustive(rng, alpha="aits", maxlen=3, orders=None):
+    """every string over alpha up to maxlen x every order (or `orders` seeded orders) of ALL its
+    segmentations, called one after the other in one process"""
+    art = _state["art_names"][0]
+    for n in range(2, maxlen + 1):
+        for tup in itertools.product(alpha, repeat=n):
+            segs = list(segmentations("".join(tup)))
+            perms = list(itertools.permutations(range(len(segs))))
+            if orders is not None and len(perms) > orders:
+                perms = rng.sample(perms, orders)
+            for perm in perms:
+                yield {"kind": "prosseq", "art": art, "steps": [[False, segs[i]] for i in perm]}
+
+
+def prosseq_random(rng, n, maxlen):
+    rc = _state["rc"]
+    _state.setdefault("keys", {})
+    for i in range(n):
+        art = _state["art_names"][i % len(_state["art_names"])]
+        model = _state["models"][art]
+        singles = _state["keys"].setdefault(("single", art), sorted(k for k in model.converter if len(k) == 1))
+        vowels = [c for c in singles if c in rc["vowels"]] or singles
+        ln = rng.randint(2, maxlen)
+        s = ""
+        while len(s) < ln:
+            c = rng.random()
+            if s and c < 0.2:
+                s += s[-1]                                       # geminate
+            elif c < 0.55:
+                s += rng.choice(vowels)
+            elif c < 0.92:
+                s += rng.choice(singles)
+            elif c < 0.96:
+                s += rng.choice(rc["stress"] + rc["diacritics"][:6] + "ʰː")
+            else:
+                s += rng.choice("?%")
+        isv = lambda x, y: x in rc["vowels"] and y in rc["vowels"]
+        cand = [list(s), merge_runs(s, isv), merge_runs(s, lambda x, y: x == y),
+                merge_runs(s, lambda x, y: isv(x, y) or x == y), [s]]
+        allsegs = list(segmentations(s)) if len(s) <= 8 else cand
+        cand += [rng.choice(allsegs) for _ in range(rng.randint(0, 3))]
+        segs = []
+        for c_ in cand:
+            if c_ not in segs:
+                segs.append(c_)
+        rng.shuffle(segs)
+        steps = [[rng.random() < 0.25, sg] for sg in segs]
+        for _ in range(rng.randint(0, 2)):                       # the same tokens again, other cldf setting
+            j = rng.randrange(len(steps))
+            steps.insert(rng.randrange(len(steps) + 1), [not steps[j][0] if rng.random() < 0.5 else steps[j][0],
+                                                         list(steps[j][1])])
+        yield {"kind": "prosseq", "art": art, "steps": steps}
+
+
 def pros_exhaustive(maxlen, values=range(0, 10), minlen=0):
     for n in range(minlen, maxlen + 1):
         for tup in itertools.product(values, repeat=n):
@@ -462,6 +576,11 @@ def nontrivial(case, r):
         return r["out"][0] == "ok" and len(case["l"]) >= 2
     if kind == "prostok":
         return r["out"][0] == "ok" and len(case["toks"]) >= 2
+    if kind == "prosseq":
+        # at least two different segmentations of the same characters, every call returned
+        segs = {tuple(tk) for _, tk in case["steps"]}
+        return len(segs) >= 2 and len({"".join(sg) for sg in segs}) == 1 and \
+            all(q["out"][0] == "ok" for q in r["steps"])
     if kind == "c2t":
         return len(r["out"]) > len(case["tokens"]) and len(case["tokens"]) > 0
     return False
@@ -479,6 +598,8 @@ def from_json(c):
     case.pop("impl", None)
     if case["kind"] == "ipa":
         case["runs"] = [tuple(x) for x in case["runs"]]
+    if case["kind"] == "prosseq":
+        case["steps"] = [[bool(c), list(tk)] for c, tk in case["steps"]]
     return case
 
 
@@ -501,6 +622,10 @@ def shrink(case):
         for i, t in enumerate(case["toks"]):
             for t2 in _drops(t):
                 yield dict(case, toks=case["toks"][:i] + [t2] + case["toks"][i + 1:])
+    elif kind == "prosseq":
+        if len(case["steps"]) > 1:
+            for st in _drops(case["steps"]):
+                yield dict(case, steps=st)
     elif kind == "pros":
         for l in _drops(case["l"]):
             yield dict(case, l=l)
@@ -535,6 +660,10 @@ def classify(case, r):
             out.append("pros_split")
     elif kind == "prostok":
         out.append("prostok_" + r["out"][0])
+    elif kind == "prosseq":
+        out.append("history_len=%d" % min(len(case["steps"]), 9))
+        if any(q["out"][0] != "ok" for q in r["steps"]):
+            out.append("history_with_error")
     elif kind == "c2t":
         out.append("c2t_gaps=%d" % min(4, len(r["out"]) - len(case["tokens"])))
     return out
@@ -569,8 +698,12 @@ def model_expr(case, r, rundir):
         expr = "tokens2class (assoc_find %s) %s %s %s" % (tbl, st, b(case["cldf"]), toks(case["toks"]))
     elif kind == "pros":
         expr = "prosodic_string %s %s" % (COQ_MODE[case["mode"]], zs(case["l"]))
+    elif kind == "prosseq":
+        expr = "[%s]" % "; ".join(
+            "prosodic_string_tokens (assoc_find sc_%s) %s %s OTrue %s" % (case["art"], st, b(c), toks(tk))
+            for c, tk in case["steps"])
     elif kind == "prostok":
-        expr = "(sonority (assoc_find sc_%s) %s false %s, prosodic_string_tokens (assoc_find sc_%s) %s OTrue %s)" % (
+        expr = "(sonority (assoc_find sc_%s) %s false %s, prosodic_string_tokens (assoc_find sc_%s) %s false OTrue %s)" % (
             case["art"], st, toks(case["toks"]), case["art"], st, toks(case["toks"]))
     else:
         expr = "(class2tokens %s %s %s, class2tokens_local %s %s %s %s %s)" % (
